@@ -91,36 +91,47 @@ Proof. exact string_region_is_literal. Qed.
 Print Assumptions C14_string_region_is_literal.
 
 (* FULL STATEMENT (not proved): for every valid source, scan_regions s = the tokenizer's STRING/COMMENT/f-string spans.
-   Proved: the scanner equals the reference lexer ref_regions (a literal starts at a quote, or at a whole word that is a
-   legal prefix; compared with CPython's tokenizer on every valid generated text; no 3.12 f-string nesting).
-   Since rope commit 704800d (prefix only at a word boundary) the old side condition "no literal glued to a word"
-   is gone: what remains (boolean prefix_sane, evaluated on every case) only excludes texts that are not valid programs,
-   namely an illegal prefix spelling such as bb"x" and a prefix directly after a non-alphanumeric character above 127. *)
+   Proved: the scanner equals the reference lexer ref_regions. The reference (coq/C14/Regions.v) starts a literal at a
+   quote or at a whole word that is a legal prefix, and extends f-literals as Python 3.12 nests them (replacement
+   fields with brackets, nested literals re-using the quote, format specs, comments); it is compared with CPython's
+   tokenizer inside Coq on every valid generated text, nested f-strings included. Side condition (boolean lex_sane,
+   evaluated on every case): wherever the scanner stands on a prefix letter, regular expression and lexer start the
+   same thing. It fails only for (1) an illegal prefix spelling before a literal, (2) a prefix directly after a
+   non-alphanumeric character above 127 — both not valid programs — and (3) an f-literal whose 3.12 extent differs
+   from the regular expression's: the open finding C14-fstring-nested-quote, refuted below on a valid program. *)
 Theorem C14_regions_are_tokens_partial : forall (u : utable) (s : text),
-  prefix_sane u s = true -> scan_regions u s = ref_regions s.
+  lex_sane u s = true -> scan_regions u s = ref_regions s.
 Proof. exact regions_are_tokens_partial. Qed.
 Print Assumptions C14_regions_are_tokens_partial.
 
 Example C14_regions_example :
-  prefix_sane (table_of [] [] []) [120; 32; 61; 32; 114; 98; 34; 97; 34; 32; 35; 32; 99; 10]%N = true
-  /\ scan_regions (table_of [] [] []) [120; 32; 61; 32; 114; 98; 34; 97; 34; 32; 35; 32; 99; 10]%N
-     = [(4, 9, Some [114; 98]); (10, 13, None)]%N.
-Proof. exact prefix_sane_example. Qed.
+  let s := [120; 32; 61; 32; 114; 98; 34; 97; 34; 32; 43; 32; 102; 34; 123; 100; 91; 39; 107; 39; 93; 58; 62; 123; 119; 125; 125; 34; 32; 35; 32; 99; 10]%N in
+  lex_sane (table_of [] [] []) s = true
+  /\ scan_regions (table_of [] [] []) s = [(4, 9, Some [114; 98]); (12, 28, Some [102]); (29, 32, None)]%N.
+Proof. exact lex_sane_example. Qed.
 Print Assumptions C14_regions_example.
 
-(* the defect fixed by 704800d, now inside the theorem's domain:  x = a or"s"  is prefix_sane and the region is the
+(* the defect fixed by 704800d, now inside the theorem's domain:  x = a or<dq>s<dq>  is lex_sane and the region is the
    literal alone (it used to start at the r of the keyword; replay corpus/C14/C14-prefix-glued-to-keyword.json) *)
 Example C14_prefix_glued_fixed :
-  prefix_sane (table_of [] [] []) glued_witness = true
+  lex_sane (table_of [] [] []) glued_witness = true
   /\ scan_regions (table_of [] [] []) glued_witness = [(8, 11, Some [])]%N.
 Proof. exact prefix_glued_fixed. Qed.
 Print Assumptions C14_prefix_glued_fixed.
 
-(* the remaining side condition cannot be dropped: an illegal prefix spelling separates rope from the lexer (bb"x",
-   not a valid program) *)
+(* the side condition cannot be dropped: an illegal prefix spelling separates rope from the lexer (not a valid program) *)
 Theorem C14_prefix_spelling_refuted : exists s : text, scan_regions (table_of [] [] []) s <> ref_regions s.
 Proof. exact prefix_spelling_refuted. Qed.
 Print Assumptions C14_prefix_spelling_refuted.
+
+(* ... and on the VALID program  x = f<dq>{d[<dq>k<dq>]}<dq>  (Python 3.12): the lexer has one f-literal 4..15, rope two regions.
+   This is the open finding C14-fstring-nested-quote (findings/C14-fstring-nested-quote.json). *)
+Theorem C14_fstring_nesting_refuted :
+  ref_regions fnest_witness = [(4, 15, Some [102])]%N
+  /\ scan_regions (table_of [] [] []) fnest_witness = [(4, 10, Some [102]); (11, 15, Some [])]%N
+  /\ lex_sane (table_of [] [] []) fnest_witness = false.
+Proof. exact fstring_nesting_refuted. Qed.
+Print Assumptions C14_fstring_nesting_refuted.
 
 (* ---------------------------------------------------------------- real_code, for ALL texts and ALL well-formed region lists *)
 
@@ -203,6 +214,36 @@ Print Assumptions C14_logical_lines_escaped_quote_refuted.
 Theorem C14_logical_lines_adjacent_quotes_refuted : exists s : text, merges_after_line1 s.
 Proof. exact logical_lines_adjacent_quotes_refuted. Qed.
 Print Assumptions C14_logical_lines_adjacent_quotes_refuted.
+
+(* FULL STATEMENT (NOT PROVED — evaluated inside Coq on every generated case, code 23 of the runner; the proof would be a
+   simulation between rope's token scanner and the character-level lexer: at every position that is not inside an
+   escape pair both are in the same (string, depth) state; a run of n backslashes before a token escapes it iff n is odd,
+   and the two machines consume the same characters except in the two shapes excluded by shape_free):
+     forall u lines, shape_free u lines = true -> ref_generator u lines = Some rg -> custom_generator u lines = rg
+   where ref_generator (coq/C14/Logical.v) is the reference lexer's view of logical lines (strings end at the first
+   unescaped delimiter, a backslash escapes one character); it is compared with tokenize's statements on every valid
+   case (code 22). Proved about the exclusion: shape_free is violated by exactly the two open defect witnesses, on
+   which the reference reads two statements and rope one; their neighbours with one blank between the quotes satisfy it
+   and there rope and the reference agree. *)
+Theorem C14_logical_lines_shape_witnesses :
+  shape_free u0 (all_lines escq_witness) = false
+  /\ ref_generator u0 (all_lines escq_witness) = Some [(1, 1); (2, 2)]%nat
+  /\ custom_generator u0 (all_lines escq_witness) = [(1, 3)]%nat
+  /\ shape_free u0 (all_lines adjstr_witness) = false
+  /\ ref_generator u0 (all_lines adjstr_witness) = Some [(1, 1); (2, 2)]%nat
+  /\ custom_generator u0 (all_lines adjstr_witness) = [(1, 3)]%nat.
+Proof. exact shape_free_witnesses. Qed.
+Print Assumptions C14_logical_lines_shape_witnesses.
+
+Example C14_logical_lines_shape_example :
+  shape_free u0 (all_lines escq_neighbour) = true
+  /\ ref_generator u0 (all_lines escq_neighbour) = Some (custom_generator u0 (all_lines escq_neighbour))
+  /\ custom_generator u0 (all_lines escq_neighbour) = [(1, 1); (2, 2)]%nat
+  /\ shape_free u0 (all_lines adjstr_neighbour) = true
+  /\ ref_generator u0 (all_lines adjstr_neighbour) = Some (custom_generator u0 (all_lines adjstr_neighbour))
+  /\ custom_generator u0 (all_lines adjstr_neighbour) = [(1, 1); (2, 2)]%nat.
+Proof. exact shape_free_neighbours. Qed.
+Print Assumptions C14_logical_lines_shape_example.
 
 (* ---------------------------------------------------------------- Worder, for ALL texts and Unicode tables *)
 
